@@ -95,6 +95,19 @@ def gen_plan(seed, k):
     if autofwd:
         invoke.attrs["autoforward"] = "true"
     invoke.add(El("content", children=[child]))
+    if rp.random() < 0.35:
+        # a second invocation in the same state that finishes by itself: its done.invoke.wrk is one more external event
+        # of the parent (and, with autoforward, of the first child)
+        wrk = El("scxml", {"version": "1.0", "datamodel": "null", "initial": "w0", "name": "worker"})
+        w0 = wrk.add(El("state", {"id": "w0"}))
+        if rp.random() < 0.5:
+            w0.add(El("onentry", children=[El("send", {"event": "wt", "delay": "%dms" % rp.choice([1, 3, 8])})]))
+            w0.add(El("transition", {"event": "wt", "target": "wf"}))
+        else:
+            w0.add(El("transition", {"target": "wf"}))
+        wrk.add(El("final", {"id": "wf"}))
+        winv = inv.add(El("invoke", {"type": "scxml", "id": "wrk"}))
+        winv.add(El("content", children=[wrk]))
     has_finalize = rp.random() < 0.7
     if has_finalize:
         fz = invoke.add(El("finalize"))
@@ -183,7 +196,7 @@ def oracle(plan, res):
     b = Bindings(lines)
     pext = b.ext.get("i0")
     # child sessions in order of appearance
-    children = [s for s in sorted(b.invokeid, key=lambda s: (len(s), s)) if s.startswith("c")]
+    children = [s for s in sorted(b.invokeid, key=lambda s: (len(s), s)) if s.startswith("c") and b.invokeid[s] == "kid"]
     # ---- invocation bookkeeping on the parent's stream
     active = False
     invoked = False
@@ -203,6 +216,8 @@ def oracle(plan, res):
             active = False
             if invoked:
                 pending_exit = True
+        elif kd in ("aiv", "aun") and len(r) > 6 and r[6] != "kid":
+            continue     # the sibling invocation "wrk" only matters as a source of done.invoke.wrk
         elif kd == "aiv":
             n_aiv += 1
             if invoked:
@@ -320,14 +335,14 @@ def oracle(plan, res):
             continue
         got_q = [(r[SEQ], r[6]["name"]) for r in lines if r[KIND] == "enq<" and r[SESS] == q]
         # the interval ends when cancelling begins (beforeUninvoking) or the child finished on its own
-        buns = [r[SEQ] for r in lines if r[SESS] == "i0" and r[KIND] == "bun" and r[SEQ] > s_aiv]
+        buns = [r[SEQ] for r in lines if r[SESS] == "i0" and r[KIND] == "bun" and r[SEQ] > s_aiv and (len(r) <= 6 or r[6] == "kid")]
         s_end = min(buns) if buns else 10 ** 12
         child_done = [r[SEQ] for r in lines if r[SESS] == c and r[KIND] == "bcp"]
         if child_done:
             s_end = min(s_end, min(child_done))
         if facts["autofwd"]:
             for r in lines:
-                if r[KIND] == "deq>" and r[SESS] == pext and r[6].get("name", "").startswith("fwd.") and s_aiv < r[SEQ] < s_end:
+                if r[KIND] == "deq>" and r[SESS] == pext and r[6].get("name", "") and s_aiv < r[SEQ] < s_end:
                     nm = r[6]["name"]
                     # forwarded right after the dequeue, before the parent's own processing of the next event
                     nxt = [x[SEQ] for x in lines if x[KIND] == "deq>" and x[SESS] == pext and x[SEQ] > r[SEQ]]
